@@ -3,7 +3,7 @@
    the CONTENT of the tables, so this file compiles for any tree (the correspondence shards only need this file);
    the sweeps that can fail are in C12tab.v, the theorems in C12.v. *)
 From Coq Require Import String List Bool. Import ListNotations. Open Scope string_scope.
-Require Import Registry Registryproof Attr Attrproof Gen_Registry Gen_Ctors.
+Require Import Registry Registryproof Attr Attrproof AttrSpec Gen_Registry Gen_Ctors.
 
 (* ---------------------------------------------------------------- registry *)
 
@@ -67,6 +67,13 @@ Definition declared_unambiguous (x : string * (string * (string * string))) : bo
 Definition declared_installed (x : string * (string * (string * string))) : bool :=
   existsb (fun y => String.eqb (fst y) (fst x) && String.eqb (fst (snd y)) (fst (snd x))
                     && String.eqb (fst (snd (snd y))) (fst (snd (snd x))) && String.eqb (snd (snd (snd y))) (snd (snd (snd x)))) propdefs.
+
+(* an existing (class, property) names the attribute of the reference table AttrSpec.v; unknown pairs are not judged *)
+Definition matches_reference (x : string * (string * (string * string))) : bool :=
+  match find (fun r => String.eqb (fst r) (fst x) && String.eqb (fst (snd r)) (fst (snd x))) attr_reference with
+  | Some r => String.eqb (snd (snd r)) (fst (snd (snd x)))
+  | None => true
+  end.
 
 (* ---------------------------------------------------------------- constructors *)
 
